@@ -303,6 +303,9 @@ fn probe_compress_cursor_equivalence_histories() {
             let mut r = preader(&s).unwrap();
             let mut c = Cursor::new(&plain[..]);
             for step in 0..30 {
+                // a read into an EMPTY buffer is legal at any point: it returns 0 and changes nothing
+                let z = r.read(&mut []).unwrap_or_else(|e| panic!("len {n} round {round} step {step}: empty read failed: {e}"));
+                assert_eq!(z, 0, "len {n} round {round} step {step}: empty read returned {z}");
                 let op = next() % 6;
                 // targets: random, or a block boundary, or a few bytes around one
                 let mut target = if n == 0 { 0 } else { (next() % (n as u64 + 1)) as i64 };
